@@ -49,7 +49,87 @@ impl Property for C14 {
          oracle = two-map model (id -> constraint, id -> removal reason) + reference evaluator; invariant checked after every step; non-trivial = history with a successful relax followed by a restore of the same id and at least one failing operation; distinct = sha256(instance, history)"
     }
     fn required_labels(&self) -> Vec<String> {
-        ["restore-ok", "relax-ok", "relax-unknown", "relax-removed-id", "restore-active-id", "restore-unknown", "flag-changes", "eval-step", "relax-then-restore-same-id", "eval-samples-step", "placed-inside-tolerance", "reason-ends-with-newline"].iter().map(|s| s.to_string()).collect()
+        ["restore-ok", "relax-ok", "relax-unknown", "relax-removed-id", "restore-active-id", "restore-unknown", "flag-changes", "eval-step", "relax-then-restore-same-id", "eval-samples-step", "placed-inside-tolerance", "reason-ends-with-newline", "sweep=many-constraints"].iter().map(|s| s.to_string()).collect()
+    }
+    fn sweep_len(&self, _tier: Tier) -> usize {
+        4
+    }
+    fn sweep_description(&self) -> Option<String> {
+        Some("instances with 1000 and 1200 constraints (ids ascending, or in shuffled order) under a fixed history of 14 relax / restore operations that revisits the same ids; membership, order-independence and content checked after every step".into())
+    }
+    fn sweep_case(&self, _tier: Tier, i: usize, ctx: &mut Ctx) -> PResult {
+        let n: u64 = [1000, 1200][i / 2];
+        let shuffled = i % 2 == 1;
+        ctx.label("sweep=many-constraints");
+        ctx.nontrivial();
+        ctx.fp_dbg(&("many-constraints", n, shuffled));
+        ctx.sample_with(|| json!({"sweep": "many constraints", "constraints": n, "shuffled": shuffled}));
+        let mut inst = v1::Instance::default();
+        inst.sense = SENSE_MIN;
+        let mut v = v1::DecisionVariable::default();
+        v.id = 1;
+        v.kind = KIND_CONTINUOUS;
+        inst.decision_variables.push(v);
+        inst.objective = Some(crate::mk::fconst(0.0));
+        let mk_c = |id: u64| {
+            let mut c = v1::Constraint::default();
+            c.id = id;
+            c.equality = if id % 2 == 0 { EQ_ZERO } else { LE_ZERO };
+            c.function = Some(crate::mk::flin(crate::mk::linear(vec![(1, 1.0)], -(id as f64))));
+            c.name = Some(format!("c{id}"));
+            c
+        };
+        let mut ids: Vec<u64> = (0..n).map(|k| 3 * k + 2).collect();
+        if shuffled {
+            // a fixed permutation (multiplication by a unit modulo n)
+            ids = (0..n).map(|k| 3 * ((k * 7 + 3) % n) + 2).collect();
+        }
+        for id in &ids {
+            inst.constraints.push(mk_c(*id));
+        }
+        let (a, b, c_) = (ids[5], ids[700], ids[n as usize - 1]);
+        // (relax?, id, must succeed)
+        let history: [(bool, u64, bool); 14] = [
+            (true, a, true), (false, a, true), (true, a, true), (true, a, false), (true, b, true), (false, a, true), (true, c_, true),
+            (false, b, true), (true, b, true), (false, 4, false), (true, 4, false), (false, c_, true), (true, a, true), (false, b, true),
+        ];
+        let mut active: std::collections::BTreeSet<u64> = ids.iter().copied().collect();
+        let mut removed: std::collections::BTreeSet<u64> = Default::default();
+        for (step, (relax, id, ok)) in history.iter().enumerate() {
+            let before = inst.clone();
+            let r = if *relax { inst.relax_constraint(*id, format!("step {step}"), Default::default()) } else { inst.restore_constraint(*id) };
+            let (na0, nr0) = (active.len(), removed.len());
+            let what = move || format!("step {step}: {}({id}) on an instance with {n} constraints ({} order), {na0} active / {nr0} removed before the call", if *relax { "relax_constraint" } else { "restore_constraint" }, if shuffled { "shuffled" } else { "ascending" });
+            match (r, *ok) {
+                (Ok(()), true) => {
+                    if *relax {
+                        active.remove(id);
+                        removed.insert(*id);
+                    } else {
+                        removed.remove(id);
+                        active.insert(*id);
+                    }
+                }
+                (Err(_), false) => {
+                    if inst != before {
+                        return fail("C14/many-constraints/failed-op-changed-instance", format!("the failing operation changed the instance: {}", what()));
+                    }
+                }
+                (Err(e), true) => return fail("C14/many-constraints/op-failed", format!("operation failed ({e:#}) although the id is in the expected list: {}", what())),
+                (Ok(()), false) => return fail("C14/many-constraints/op-accepted", format!("operation succeeded although the id is not in the expected list: {}", what())),
+            }
+            let got_a: std::collections::BTreeSet<u64> = inst.constraints.iter().map(|c| c.id).collect();
+            let got_r: std::collections::BTreeSet<u64> = inst.removed_constraints.iter().filter_map(|rc| rc.constraint.as_ref().map(|c| c.id)).collect();
+            if got_a != active || got_r != removed || inst.constraints.len() != active.len() || inst.removed_constraints.len() != removed.len() {
+                return fail("C14/many-constraints/membership", format!("active / removed id sets are not what the history implies after {}", what()));
+            }
+            for c in inst.constraints.iter().chain(inst.removed_constraints.iter().filter_map(|rc| rc.constraint.as_ref())) {
+                if [a, b, c_].contains(&c.id) && c != &mk_c(c.id) {
+                    return fail("C14/many-constraints/content", format!("constraint {} changed after {}", c.id, what()));
+                }
+            }
+        }
+        Ok(())
     }
     fn cases(&self, tier: Tier) -> usize {
         match tier {
